@@ -132,6 +132,11 @@ def expr_queries():
                         qs.append({"form": "select", "proj": ["a"], "where": w, "groupby": [key], "aggs": [a], "orderby": [{"e": key, "desc": desc}]})
                         qs.append({"form": "select", "proj": [key["v"], "a"], "where": w, "groupby": [key], "aggs": [a], "orderby": [{"e": key, "desc": desc}]})
                         qs.append({"form": "select", "proj": [key["v"], "a"], "where": w, "groupby": [key], "aggs": [a], "orderby": [{"e": ev("a"), "desc": desc}, {"e": key, "desc": not desc}]})
+        # HAVING that only tests group keys (no aggregate in it), the key selected or not
+        for hv in ({"e": "!=", "a": ev("s"), "b": ec(I("n1"))}, {"e": "isiri", "a": ev("s")}, {"e": "bound", "v": "s"}, {"e": "=", "a": ev("s"), "b": ev("s")}):
+            for proj in (["a"], ["s", "a"]):
+                for a in (agg("count*"), agg("max", var)):
+                    qs.append({"form": "select", "proj": proj, "where": w, "groupby": [ev("s")], "aggs": [a], "having": {"e": hv}})
         # ORDER BY an expression that is an error for some solutions
         for desc in (False, True):
             for lim in (None, 2):
